@@ -148,6 +148,8 @@ pub enum Pred {
     Count(u64),
     /// keep running for n tripwire evaluations, then clear MCR from inside the closure and keep returning true
     McrAfter(u32),
+    /// keep running; at the n-th tripwire evaluation insert this breakpoint from inside the closure
+    BpAfter(u32, BpS),
 }
 
 #[derive(Clone, Debug, Serialize, Deserialize, PartialEq)]
@@ -188,6 +190,8 @@ pub enum Op {
     QueryAll,
     /// the public `Simulator::call_subroutine`
     CallSub(u16),
+    /// the public `instructions_run` counter set by the host
+    SetInstrCount(u64),
     SubDef(u16, SigS),
     /// host event applied between drive calls (same events the clock can apply mid-call)
     Host(HostEv),
@@ -442,6 +446,13 @@ pub fn exec_op(w: &mut World, op: &Op) -> OpRes {
                     }
                     true
                 }),
+                Pred::BpAfter(n, b) => w.sim.run_while(|s| {
+                    evals += 1;
+                    if evals == n {
+                        s.breakpoints.insert(to_bp(&b));
+                    }
+                    true
+                }),
             };
             d(r)
         }
@@ -546,6 +557,10 @@ pub fn exec_op(w: &mut World, op: &Op) -> OpRes {
         }
         Op::Munmap(a) => {
             let _ = w.sim.munmap_internal(*a);
+            OpRes::Cfg
+        }
+        Op::SetInstrCount(v) => {
+            w.sim.instructions_run = *v;
             OpRes::Cfg
         }
         Op::CallSub(a) => {
